@@ -657,6 +657,14 @@ fn peel_references(
             if peeled && is_pointer {
                 return None;
             }
+            // A macro in type position keeps its reference (it may stand for a bare `dyn Trait`),
+            // but of any lifetime (it may as well stand for a parameter, see above).
+            if let syn::Type::Reference(r) = &mut p.bounded_ty {
+                if matches!(&*r.elem, syn::Type::Macro(_)) {
+                    r.lifetime = Some(parse_quote! { '__derive_more_any });
+                    p.lifetimes = Some(parse_quote! { for<'__derive_more_any> });
+                }
+            }
         }
     }
     Some(predicate)
